@@ -10,7 +10,8 @@ CONSTANT CheckFigures   \* TRUE for C01; FALSE when the same executor records ru
 Vec(m) == [d \in Dims |-> m[d]]
 QReq(e) == [name |-> e.name, parent |-> e.parent, isParent |-> e.isParent, lent |-> e.lent,
             min |-> Vec(e.min), max |-> Vec(e.max),
-            weight |-> IF Has(e, "weight") THEN Vec(e.weight) ELSE Vec(e.max)]
+            weight |-> IF Has(e, "weight") THEN Vec(e.weight) ELSE Vec(e.max),
+            dims |-> IF Has(e, "dims") THEN ToSet(e.dims) ELSE Dims]
 
 \* e.obs : quota name -> [fig |-> reported figures, pods |-> pod id -> isAssigned]
 ExpectedObs == [q \in DOMAIN quota |-> [fig |-> Figures(q), pods |-> [p \in PodsOf(q) |-> pod[p].assigned]]]
